@@ -80,7 +80,7 @@ def gen_interfere(r, tier):
 class C05(Prop):
     id = "C05"
     lean_modules = ["Fan2go.Props.C05"]
-    fact_modules = ["Fan2go.Props.Facts", "Fan2go.Props.Trans2Keys", "Fan2go.Props.Trans3A", "Fan2go.Props.Trans3B", "Fan2go.Props.Trans3Fan"]
+    fact_modules = ["Fan2go.Props.Facts", "Fan2go.Props.Trans2Keys", "Fan2go.Props.Trans3A", "Fan2go.Props.Trans3B", "Fan2go.Props.Trans3Fan", "Fan2go.Props.Trans3FileFan"]
     rule = ("interfere: controller worlds (hwmon / file / cmd fans, cmd = real scripts and processes) whose PWM map reads back (identity, sparse identity, idempotent quantiser with a "
             "matching device) x every loop x curve trajectories, with an external change of mode in {0,2,3} and/or PWM 0..255 "
             "before a random cycle index (plus random extra ones). non-trivial = distinct (kind, map shape, loop, interference "
